@@ -680,6 +680,50 @@ def gen_html_sources():
                 yield case, src, spec
 
 
+def gen_rtf_sources():
+    """RTF *source text*: prologue, then <= 3 items out of {body paragraph, header / footer group (plain, with a
+    formatting group, with a nested skip destination before / after its text, with the destination one level deeper),
+    body picture (plain, with a starred sub-destination, with a starred sub-destination that has nested groups),
+    starred destination}.  Yields (case, source, specified text)."""
+    PRO = "{\\rtf1\\ansi\\deff0{\\fonttbl{\\f0\\fswiss Arial;}}{\\colortbl;\\red0\\green0\\blue0;}{\\info{\\title demo}}\n"
+    pict = lambda tk: "{\\pict\\pngblip\\picw1\\pich1 " + tk.x("PIC") + "}"
+
+    def alts(tk):
+        hf = lambda kw, inner: ("{\\" + kw + " \\pard\\plain " + inner + "\\par}\n", "")
+        return {
+            "par": lambda: (lambda a: ("\\pard\\plain " + a + "\\par\n", a + "\n"))(tk.v()),
+            "header-plain": lambda: hf("header", tk.x("HF")),
+            "footer-format-group": lambda: hf("footerf", "{\\b " + tk.x("HF") + "}" + tk.x("HF")),
+            "header-starred": lambda: hf("headerl", "{\\*\\shpinst " + tk.x("RM") + "}" + tk.x("HF")),
+            "header-pict-then-text": lambda: hf("header", pict(tk) + " " + tk.x("HF")),
+            "footer-text-pict-text": lambda: hf("footer", tk.x("HF") + pict(tk) + " " + tk.x("HF")),
+            "header-object-then-text": lambda: hf("headerf", "{\\object\\objemb " + tk.x("RM") + "}" + tk.x("HF")),
+            "header-pict-one-level-deeper": lambda: hf("header", "{\\b " + pict(tk) + tk.x("HF") + "}"),
+            "pict": lambda: (pict(tk) + "\n", ""),
+            "pict-starred-sub": lambda: ("{\\pict{\\*\\picprop " + tk.x("RM") + "}\\pngblip " + tk.x("PIC") + "}\n", ""),
+            "pict-starred-sub-nested": lambda: ("{\\pict{\\*\\picprop{\\sp{\\sn shapeType}{\\sv 75}}}\\pngblip " + tk.x("PIC") + "}\n", ""),
+            "starred": lambda: ("{\\*\\generator " + tk.x("RM") + ";}", ""),
+        }
+    kinds = {"header-pict-then-text": "header-with-nested-destination", "footer-text-pict-text": "header-with-nested-destination",
+             "header-object-then-text": "header-with-nested-destination",
+             "header-pict-one-level-deeper": "destination-nested-deeper-inside-skipped-group",
+             "pict-starred-sub-nested": "destination-nested-deeper-inside-skipped-group"}
+    names = list(alts(Tok()))
+    for k in (1, 2, 3):
+        for combo in itertools.product(names, repeat=k):
+            if k == 3 and "par" not in combo:
+                continue
+            ks = {kinds[c] for c in combo if c in kinds}
+            if len(ks) > 1:
+                continue
+            tk = Tok()
+            a = alts(tk)
+            parts = [a[c]() for c in combo]
+            tail = tk.v()
+            src = PRO + "".join(x for x, _ in parts) + "\\pard\\plain " + tail + "\\par}"
+            yield (next(iter(ks)) if ks else "plain"), src, "".join(y for _, y in parts) + tail
+
+
 # =============================================================================================
 # sheets: cell grids
 # =============================================================================================
